@@ -292,16 +292,16 @@ theorem i2a_applyCmds_transmits (j : Job) (cl : Cluster) (l : List Cmd) (e : Env
     · exact Or.inr hm
 
 theorem i2a_assign_env (j : Job) (cl : Cluster) (e : Env) (a : Asg) (prep : List (Ds × Host)) :
-    (applyCmds j cl e (actCmds a prep)).ran = e.ran ∧ (applyCmds j cl e (actCmds a prep)).produced = e.produced ∧
-    (applyCmds j cl e (actCmds a prep)).pending = e.pending ∧
-    (applyCmds j cl e (actCmds a prep)).queued = e.queued ++ [(a.worker, a.task)] ∧
-    ∀ m, m ∈ (applyCmds j cl e (actCmds a prep)).viol → m ∈ e.viol ∨ m = "C04 transmit-from-missing" ∨
+    (applyCmds j cl e (actCmds j a prep)).ran = e.ran ∧ (applyCmds j cl e (actCmds j a prep)).produced = e.produced ∧
+    (applyCmds j cl e (actCmds j a prep)).pending = e.pending ∧
+    (applyCmds j cl e (actCmds j a prep)).queued = e.queued ++ [(a.worker, a.task)] ∧
+    ∀ m, m ∈ (applyCmds j cl e (actCmds j a prep)).viol → m ∈ e.viol ∨ m = "C04 transmit-from-missing" ∨
       m = "C02 unknown-worker" ∨ m = "C02 busy-worker" ∨ m = "C02 double-dispatch" ∨ m = "C02 gpu" ∨
       ((j.inputs a.task).all (fun d => e.produced d) = false ∧ m = "C02 input-not-produced") ∨
       m = "C04 input-purged-on-target" ∨ m = "C02 input-neither-present-nor-in-transfer" := by
-  have henv : applyCmds j cl e (actCmds a prep) =
+  have henv : applyCmds j cl e (actCmds j a prep) =
       applyCmd j cl (applyCmds j cl e ((prep.filter (fun p => p.2 != a.worker.host)).map
-        (fun p => Cmd.transmit p.1 p.2 a.worker.host))) (.taskSeq a.worker a.task) := by
+        (fun p => Cmd.transmit p.1 p.2 a.worker.host))) (.taskSeq a.worker a.task (asgOutputs j a.task)) := by
     simp [applyCmds, actCmds, List.foldl_append]
   have ht := i2a_applyCmds_transmits j cl ((prep.filter (fun p => p.2 != a.worker.host)).map
         (fun p => Cmd.transmit p.1 p.2 a.worker.host)) e (by
@@ -345,7 +345,7 @@ theorem i2a_step_assign (f : Sem) (j : Job) (cl : Cluster) (s s' : Sys) (a : Asg
     obtain ⟨_, hd0, hd', hcomp, _, _, hon', _⟩ := once_assignOne j cl s.ctl c2 a prep h1.once has
     obtain ⟨f1, f2, f3, f4, f5, f6, f7, f8, f9, _⟩ := i2a_assignOne_frames j cl s.ctl c2 a prep has
     obtain ⟨g1, g2, g3, g4, g5⟩ := i2a_assign_env j cl s.env a prep
-    generalize applyCmds j cl s.env (actCmds a prep) = E at g1 g2 g3 g4 g5
+    generalize applyCmds j cl s.env (actCmds j a prep) = E at g1 g2 g3 g4 g5
     have hfl : ∀ w t, Sys.inFlight { s with ctl := c2, env := E, todo := s.todo ++ [(a, prep)] } w t ↔
         (s.inFlight w t ∨ (w, t) = (a.worker, a.task)) := by
       intro w t
@@ -574,6 +574,7 @@ theorem i2a_step_env (f : Sem) (j : Job) (cl : Cluster) (s s' : Sys) (es : EnvSt
     (hs : step f j cl s (.env es) = some s') : Inv2 j cl s' := by
   simp only [step] at hs
   split at hs; · cases hs
+  rw [envStepP_eq f j s.env es h1.no_trim] at hs
   cases he : envStep f j s.env es with
   | none => simp [he] at hs
   | some e' =>
